@@ -91,7 +91,7 @@ def abstract_file(src: str):
 
 def scan(root: str) -> dict:
     """Abstract file system for the model: directories and Python files (canonical paths), in os.walk order."""
-    dirs, files = [CANON], []
+    dirs, files = ["/", CANON], []  # the canonical root /R sits directly below /
     for dp, dns, fns in os.walk(root):
         dns.sort()
         for d in dns:
